@@ -68,8 +68,9 @@ impl RequestHandler<PrepareRenameRequest> for PrepareRenameRequestHandler {
                 // This is now the identifier under the cursor
                 let id = Identifier::from(&line[start..end]);
 
-                if id.is_super() {
-                    // We don't want to allow renaming 'super'
+                if id.is_super() || start == end {
+                    // We don't want to allow renaming 'super', and the automatic block symbols '-' and '+' have no name
+                    // in the source that could be replaced
                     return Ok(None);
                 }
 
@@ -125,6 +126,14 @@ impl RequestHandler<Rename> for RenameHandler {
             DefinitionType::Filename(_) => Ok(None),
             DefinitionType::Symbol(def_symbol_nx) => {
                 if let Some(location) = &def.location {
+                    // Only a symbol that is written as an identifier where it is defined can be renamed
+                    // (the automatic block symbols '-' and '+' are "defined" by a brace)
+                    let sl = codegen.analysis().look_up(location.span);
+                    let defined_as = sl.file.source_slice(location.span);
+                    if defined_as.is_empty() || !defined_as.chars().all(|c| c.is_alphanumeric() || c == '_') {
+                        return Ok(None);
+                    }
+
                     // The new paths are computed on a copy of the symbol table: the buffers are unchanged until the
                     // client applies the edit (and sends them again), so the analysis must stay as it is
                     let mut symbols = codegen.symbols().clone();
